@@ -73,12 +73,12 @@ where
                 #(#querier_methods_declaration)*
             }
 
-            impl <'a, CustomQueryT: #sylvia ::cw_std::CustomQuery, #(#all_generics,)*> Querier for #sylvia ::types::BoundQuerier<'a, CustomQueryT, dyn #interface_name <#( #all_generics = #all_generics,)*> > #where_clause {
+            impl <'sv_querier_lifetime, CustomQueryT: #sylvia ::cw_std::CustomQuery, #(#all_generics,)*> Querier for #sylvia ::types::BoundQuerier<'sv_querier_lifetime, CustomQueryT, dyn #interface_name <#( #all_generics = #all_generics,)*> > #where_clause {
                 #(type #generics = #generics;)*
                 #(#methods_trait_impl)*
             }
 
-            impl <'a, CustomQueryT: #sylvia ::cw_std::CustomQuery, Contract: #interface_name> Querier for #sylvia ::types::BoundQuerier<'a, CustomQueryT, Contract> {
+            impl <'sv_querier_lifetime, CustomQueryT: #sylvia ::cw_std::CustomQuery, Contract: #interface_name> Querier for #sylvia ::types::BoundQuerier<'sv_querier_lifetime, CustomQueryT, Contract> {
                 #(type #generics = <Contract as #interface_name > :: #generics;)*
                 #(#methods_trait_impl)*
             }
